@@ -42,7 +42,7 @@ func depth(tier string) int {
 	if tier == "thorough" {
 		return 10
 	}
-	return 8
+	return 7
 }
 
 var opts = senderkit.Opts{Crashes: true, MaxCrashEvents: 2, NoAdvance: true, Contradictions: true}
@@ -77,17 +77,21 @@ func main() {
 		RunUnit: runUnit,
 		Replay:  replay,
 		Setup:   func(string) { kit.Quiet() },
-		Rule: "unit = (RetryCertAfterInError, flow PP|FEP, L2 history); inside a unit ALL sequences up to the depth bound of C02's events plus " +
-			"{Tick/crash@beforeSubmit|afterSubmitBeforeStore|afterStore (the iteration runs with the stop armed; the process is rebuilt on the same files and the real start-up runs), " +
-			"Restart (stop between iterations), LoseDB (certificate DB files deleted, restart), Tick/fault@k (the k-th write statement of the next SaveLastSentCertificate aborts, k=1..3)}, " +
-			"at most 2 crash/fault events per history, executed on fresh real objects; states merged by the canonical key of C02 plus the crash budget used; " +
-			"non-trivial/distinct = a transition that reached a state not seen before in its unit",
+		Rule: "unit = (RetryCertAfterInError, flow PP|FEP, L2 history); inside a unit ALL sequences up to the depth bound of the events " +
+			"{L2Block, EpochTick, StatusTick, Settle, InError, FailNextAgglayerCall, ProverShort (FEP)} plus " +
+			"{Tick/crash@beforeSubmit|afterSubmitBeforeStore|afterStore (the iteration runs with the stop armed; every object is dropped, a new node is built on the same files and the real start-up runs), " +
+			"Restart (stop between iterations), LoseDB (certificate DB files deleted, restart), Tick/fault@k (the k-th write statement of the next SaveLastSentCertificate aborts), " +
+			"AgglayerLosesLast (the Agglayer forgets its most recent certificate, restart)}, at most 2 such events per history, executed on fresh real objects; " +
+			"states merged by the canonical key of C02 plus the crash budget used; non-trivial/distinct = a transition that reached a state not seen before in its unit",
 		Assumptions: []string{
 			"the model Agglayer follows DESIGN §5.5 (accepts everything, ids = keccak of the submitted JSON, headers carry previous LER and metadata); a call that takes effect and loses its answer is not explored",
-			"'records contradict the Agglayer's' is defined from outside the node: a local certificate id the Agglayer never received, or a local height above the Agglayer's highest; no event of the alphabet produces such a state, so that clause is checked but never triggered",
-			"'never completes' = the start-up reconciliation still fails after 3 retries with an unchanged Agglayer; a process that panics in the flow's start-up check counts as not started",
-			"bounded progress after a restart is probed on the objects of the execution: the Agglayer settles what is open, then at most two epoch ticks must submit if unsent L2 events exist",
-			"crash points are the three call boundaries of the send path (SQLite's own atomic commit is trusted); storage faults are one-shot, so the node's own retry (MaxRetriesStoreCertificate=2) follows the failed write",
+			"Agglayer-side situations are nothing / pending / in error / settled (the single-step verdicts Proven and Candidate are explored in C02 only)",
+			"'records contradict the Agglayer's' is defined from outside the node: a local certificate id the Agglayer does not know, or a local height above the Agglayer's highest; " +
+				"the only event that produces it is AgglayerLosesLast, an addition to the alphabet of the DESIGN made so that 'refuses to proceed' is exercised at all",
+			"'never completes' = the start-up reconciliation still fails after 3 retries with an unchanged Agglayer; a node whose flow start-up check returns an error (Start panics on it) counts as not started",
+			"bounded progress after a restart is probed on the objects of the execution: the Agglayer settles what is open, then at most two epoch ticks must submit if unsent L2 bridge exits or claims exist",
+			"crash points are the call boundaries of the send path (SQLite's own atomic commit is trusted); crash points and storage faults are placed on iterations in states where nothing is undecided and something is unsent " +
+				"(elsewhere an iteration does not reach the send path; a stop there is the Restart event); storage faults are one-shot, so the node's own retry (MaxRetriesStoreCertificate=2) follows the failed write",
 			"time is the deterministic fake clock of a synctest bubble; every event happens 100 s after the previous one",
 			"nothing is claimed beyond the depth bound",
 		},
